@@ -279,13 +279,19 @@ def lateReady (s : St) (a : Nat) (arrived : List Nat) (work : List Tok) : Bool :
   | none => true
   | some tag => (s.liveToks work).all (fun t => !(s.tagsOf t.fid).contains tag || arrived.contains t.fid)
 
+/-- the latest allowed release point of gateway `n`: a gateway with at most one incoming flow is a pure fork — the
+property has no join clause for it, it must forward the token at once, so its late bound is vacuous (the interval
+collapses to `early`); with two or more incoming flows it is the lineage bound `lateReady` -/
+def lateAt (s : St) (n : Node) (a : Nat) (arrived : List Nat) (work : List Tok) : Bool :=
+  n.ins.length ≤ 1 || lateReady s a arrived work
+
 /-- may the inclusive gateway `n` synchronise now? (`trySync`) -/
 def igReady (cfg : Cfg) (p : Proc) (s : St) (n : Node) (g : IgSt) (work : List Tok) : Bool × St :=
   match g.activated with
   | none => (false, s)
   | some a =>
     let early := !upstreamLive p s n.id work g.arrived
-    let late := lateReady s a g.arrived work
+    let late := lateAt s n a g.arrived work
     if cfg.inclCohort then
       let awaiting := cohort s a
       let codeReady := awaiting.all (g.arrived.contains ·)
